@@ -18,7 +18,7 @@ PROPS = {
                     "file ids are numbered in the order of the file locations, so the model's key order is the string order "
                     "graph.StableTopologicalSort uses"],
         "assumptions": ["local files only (no remote nodes); include paths, dirs and vars are literal (no templates); "
-                        "task and namespace names contain no ':'; one load error kind is injected per tree at most",
+                        "task and namespace names contain no ':'; one load error kind is injected per tree at most (several: C09's domains)",
                         "C08_present is stated over the include graph the reader built (Reach); that every include statement "
                         "of a reachable file becomes an edge is checked by the correspondence, not proved"],
         "level_text": "Theorems (all include graphs, every topological order and per-edge include order): every non-excluded task "
@@ -29,12 +29,18 @@ PROPS = {
                       "C08_root_ref_graph for the whole-graph merge; the renaming rule itself is pinned in the regenerated Gen.Load "
                       "by root_ref_rule_in_source); every field survives the copy (C08_attrs over Gen.Fields); name clash, "
                       "cycle, missing file, version mismatch, dotenv are errors and keys stay distinct (C08_conflict, "
-                      "C08_no_overwrite[_graph], C08_cycle, C08_missing, C08_version, C08_dotenv, C08_loaded_is_acyclic). "
+                      "C08_no_overwrite[_graph], C08_cycle, C08_missing, C08_version, C08_dotenv, C08_loaded_is_acyclic); the keys of EVERY "
+                      "loaded table are pairwise distinct without hypothesis on the files (C08_no_overwrite_load: a key used twice in tasks / "
+                      "includes / vars / env is a decode error, C08_duplicate_key, duplicate_key_rule_in_source); the file-level defaults of an "
+                      "included Taskfile (method, run, silent, set, shopt) go with its tasks (C08_file_defaults, idempotent), 'as in its own "
+                      "file' holds wherever the task or its file declares the option (C08_defaults_partial; the unconditional statement is "
+                      "false: C08_defaults_full_counterexample), an include never replaces the root's output style (C08_output_kept). "
                       "Tie: generated include trees loaded through Executor.Setup, merged table, global vars, error class and a "
                       "CompiledTask probe compared with the model's load; trees with ':'-references are also compared with the "
                       "independent root-reference monitor load.refs.",
         "level_note": "Trusted: Lean kernel; harness serialiser/decoder (round-trip checked per case); id order = location order. "
-                      "The two former ':'-reference findings (depth >= 2, flatten) are fixed by F32; their witnesses are in the corpus.",
+                      "The two former ':'-reference findings (depth >= 2, flatten) are fixed by F32; duplicate keys, dropped file-level defaults "
+                      "and the overriding output style by fixes/l8 0001, 0004-0006 (05e13c6, -4, -5, -6); witnesses are in the corpus.",
     },
     "C09": {
         "lean": "Props.C09",
@@ -55,23 +61,40 @@ PROPS = {
                       "all_sites_classified over the regenerated Gen.NondetSites; edges_in_declaration_order over Gen.Load; "
                       "C09_dotenv_order_indep: the templated values of a global dotenv file (variables and command environment) are the same for "
                       "every order in which godotenv's map hands out the entries (dotenv_sites_sorted pins the sorted loops). "
-                      "Tie: every generated tree is loaded repeatedly in one process; all dumps must coincide and equal the model.",
+                      "C09_read_error_schedule_indep: with several files in error, whatever the concurrent read met first in time, Reader.Read "
+                      "returns the outcome of the sequential read in declaration order, error included (firstError_eq: the walk over the "
+                      "recorded results reports exactly the error of the model's visit; first_error_walk_in_source and "
+                      "Sites.readErrorIsCanonical pin the walk, the records and Read's error branch; every errgroup whose error is used on the "
+                      "load path is a classified site). Tie: every generated tree is loaded repeatedly in one process; all dumps must coincide "
+                      "and equal the model; 30 % of the trees carry two or three load errors of different kinds (siblings, nested, a file "
+                      "reached along two paths).",
         "level_note": "Trusted: Lean kernel; extractor's syntactic map typing; harness. Sampled: runtime schedules (the theorem "
                       "quantifies over all of them for the canonical schedule).",
     },
     "C15": {
         "lean": "Props.C15",
-        "domains": [{"name": "resolve"}, {"name": "loadresolve"}],
-        "trusted": ["Go regexp's leftmost-first semantics for `^lit(.*)lit…$` is what Resolve.Glob mirrors; "
-                    "sajari/fuzzy ranking is an oracle (only 'a suggestion exists' is checked)"],
+        "domains": [{"name": "resolve"}, {"name": "loadresolve"}, {"name": "resolverun"}, {"name": "suggest"}],
+        "trusted": ["Go regexp's leftmost-first semantics for `(?s)^lit(.*)lit…$` is what Resolve.Glob mirrors; "
+                    "sajari/fuzzy's RANKING is not modelled: Resolve.Suggest.classify is an oracle over proved edit distances "
+                    "(exactly one / several words of >= 4 characters within two edits => that word / one of them; nothing within three "
+                    "edits or a request more than two characters longer than every word => none), read off the library's three lookup "
+                    "steps and valid for the generator's alphabet (lower-case ASCII without s / y)"],
         "assumptions": ["names are valid UTF-8; resolution table built in memory through ast.Tasks.Set"],
         "level_text": "Theorems (all names, patterns, tables): matcher soundness/completeness/greediness, only '*' special, "
                       "exact > first wildcard in table order > unique alias, ambiguity = 203, unknown = 200. Tie: ast.Task.WildcardMatch and "
                       "Executor.GetTask are run on generated tables over an alphabet with regexp metacharacters and must equal the model. "
                       "Second tie (loadresolve): the tables that includes produce — generated include trees (nesting, flatten, namespace aliases, "
                       "task aliases, default tasks, excludes) are loaded by the real executor and asked for names along every namespace / alias path "
-                      "plus near misses; GetTask's answer must equal Resolve.resolve applied to the Load model's merged table.",
-        "level_note": "Trusted: Lean kernel; harness canonicalisation; Go regexp semantics for the quoted pattern; fuzzy suggestion is an oracle.",
+                      "plus near misses; GetTask's answer must equal Resolve.resolve applied to the Load model's merged table; the files carry overlapping wildcard "
+                      "task names in root, included and flattened files (C15_parent_first + C15_parent_first_load: the root file's tasks are a "
+                      "prefix of every loaded table, so its patterns win), requests instantiate them and the rendered {{.MATCH}} of a compiled "
+                      "command is compared. The matcher theorems hold for ALL strings (newline included, since (?s): C15_match_complete, "
+                      "C15_match_iff) and greediness for every group (C15_match_greedy). Third tie (resolverun): Executor.Run on Taskfiles in "
+                      "which other tasks do not fast-compile: the first request that does not resolve decides the error and nothing runs "
+                      "(C15_unknown_nothing_runs, run_unknown_in_source). Fourth tie (suggest): DidYouMean after a real Setup is judged by the "
+                      "edit-distance oracle (C15_suggestion_closest, C15_suggestion_one_of_the_close, C15_no_suggestion_when_far; "
+                      "EditDist.lev_le_iff; suggestions_in_source).",
+        "level_note": "Trusted: Lean kernel; harness canonicalisation; Go regexp semantics for the quoted pattern; the suggestion oracle (which class demands what) — the ranking among several close names is not modelled.",
     },
     "C07": {
         "lean": "Props.C07",
@@ -427,18 +450,34 @@ PROPS["C16"] = {
     "level_note": "Trusted: Lean kernel; extractor; third-party parsers; harness worker supervision.",
 }
 PROPS["C18"] = {
-    "lean": "Props.C18", "domains": [{"name": "race"}], "race": True,
-    "trusted": ["phase and confinement classification in extract2/classify.go (which functions run only while the program is single-threaded, which "
-                "objects are fresh per call / per command) — validated by the race-detector runs, not proved; syntactic, intraprocedural lockset "
-                "(a mutex counts as held from its Lock() statement to Unlock(), path-insensitive except for blocks that return)"],
-    "assumptions": ["partial by scope: a discipline proof over the extracted abstraction, not the Go memory model; third-party code and accesses through "
-                    "closures/interfaces are not in the table; the race search is bounded by the workloads of domain `race`"],
-    "level_text": "Theorem (decide over the regenerated access table): any two run-phase accesses to one non-confined field of which one is a write hold a "
-                  "common mutex, or the field is ordered by the done channel (C01_shared gives that order); every such write is under a mutex; the loop "
-                  "definition (rows included) is copied before matrix refs are resolved. Tie/search: the harness is built with -race and runs concurrent "
-                  "workloads (matrix refs from parallel deps, prefixed/group output, dynamic vars, dedup, includes, --parallel); a race report is a "
-                  "violation with the report as replay.",
-    "level_note": "Trusted: Lean kernel; typed extractor and its classification; Go race detector for the search half.",
+    "lean": "Props.C18", "domains": [{"name": "race", "timeout": 5400}], "race": True, "cli_race": "always",
+    "trusted": ["static call graph of extract2/callgraph.go (go/types: direct and method calls, interface calls resolved to every implementing method of "
+                "the module, function values counted as called where they are taken, concrete values converted to an interface give their methods to the "
+                "converting function); what it cannot see — reflection on fields of a converted value, unsafe, linkname, cgo — is trusted absent. The NAME-based "
+                "phase classification of extract2/classify.go is no longer trusted: it is a claim checked against that graph (setup_edges_reviewed, "
+                "no_setup_function_in_run_phase; three reviewed edges with written reasons); the confined-type list is checked by a syntactic escape search "
+                "(confined_no_escape) and the 'fresh copy' bases by copy / aliasing facts (compiled_task_holds_copies, copiers_return_fresh); what stays a "
+                "reviewed statement: the (function, base) confinement pairs of isConfinedBase and that a per-call object reached through a parameter is not "
+                "shared by the caller",
+                "syntactic, intraprocedural lockset (a mutex counts as held from its Lock() statement to Unlock(), path-insensitive except for blocks that "
+                "return); the thread model of TaskModel.Race.Threads abstracts goroutines to straight-line sequences of lock / unlock / access / close / recv"],
+    "assumptions": ["partial by scope: the all-schedules theorem is about the extracted abstraction (field-granular locations, straight-line bodies, sync.Mutex and "
+                    "one closed `done` channel), not the Go memory model; third-party code and accesses through closures/interfaces are not in the table; the race "
+                    "search is bounded by the generated workloads of domain `race` and by the schedules that happen (perturbed by seeded delays at the hook points)"],
+    "level_text": "Theorems. (1) C18_no_race_state / C18_chan_ordered (TaskModel.Race.Threads): in a model of any number of threads running sequences of "
+                  "lock / unlock / access / close / recv under mutex and channel semantics, if every two conflicting access positions share a statically held "
+                  "mutex (heldAt: locked and not yet unlocked — the extractor's rule) or are ordered by the close of a channel, then NO state reachable by any "
+                  "interleaving of any length has two threads at conflicting accesses (invariant: m in heldAt t <-> owner m = t). (2) C18_lockset (decide over "
+                  "the regenerated access table) + C18_no_race_state_table / C18_no_race_state_rows: the table of the current tree keeps that discipline, so any "
+                  "program whose access positions are its rows — in particular any number of threads running the critical sections of any rows — has no race "
+                  "state. (3) Obligations that tie the table's inputs to the source: setup_edges_reviewed and no_setup_function_in_run_phase (call graph vs. "
+                  "phase claims: a lazily initialised field shows as a new edge and its accesses enter the table), confined_no_escape, copiers_return_fresh, "
+                  "compiled_task_holds_copies, chanSync_is / chanSync_ordered (the done-channel exemption is computed from ordering facts about startExecution), "
+                  "C18_matrix_rows_private. Tie/search: a seeded generator composes Taskfiles from ~40 features (unknown names, fingerprints, shared dirs, sh: "
+                  "vars, dotenv, wildcards, aliases, prefixes, defers, run: once incl. cycles, includes, matrices, flags) so that >= 2 activations touching the "
+                  "same structure run concurrently, under GOMAXPROCS 1..16 and concurrency limits 0..N; every workload runs in a worker process under the race "
+                  "detector, in-process with seeded delays (-tags verif) and through the -race CLI (no tag); a report is a violation whose replay is the workload.",
+    "level_note": "Trusted: Lean kernel; typed extractor incl. its call-graph construction and lockset rules; Go race detector for the search half.",
 }
 
 
